@@ -15,8 +15,12 @@ V: the driver runs the real fit for each: table rows -> outcome; small vectors -
    rows) and between metamorphic variants; every law fit is made four times - as the first fit of a fresh
    forked process (history-free reference), in a fresh process directly after a fixed-delta fit of another
    instance on an equally long sample (EarlierFitDoesNotLeak), in the run's sequence, and again in another
-   seeded order - and must return bit-identical parameters (CaseOrderIndependent); spec/Trace_C13.tla judges every record.
+   seeded order - and must return bit-identical parameters (CaseOrderIndependent); every fixed-delta fit is
+   also made as the LAST fit of one object with a past (free fit first, another f_delta first, delta attribute
+   overwritten, deep copy of such an object) and must equal the fresh object's fit, reported delta included
+   (ObjectHistoryIndependent); spec/Trace_C13.tla judges every record.
 """
+import copy
 import json
 import math
 import os
@@ -243,6 +247,34 @@ def fresh_fits(cases, seed):
     return list(zip(res[0::2], res[1::2]))
 
 
+HISTORIES = ("free_then_fix", "refix", "assign_delta", "deepcopy")
+
+
+def object_histories(vc, x, method, warg, fdelta):
+    """ONE object with a past: its last fit, made with f_delta = fdelta in force, must be the fit of a fresh
+    ExponentiatedWeibullDistribution(f_delta=fdelta) - bit for bit, reported delta included"""
+    EW = vc.ExponentiatedWeibullDistribution
+    out = []
+
+    def last(obj):
+        obj.f_delta = fdelta
+        obj.fit(x, method=method, weights=warg)
+        return bits([obj.alpha, obj.beta, obj.delta])
+
+    o = EW()
+    o.fit(x, method=method, weights=warg)               # free delta first, then the delta is fixed
+    out.append(dict(name="free_then_fix", bits=last(o)))
+    o = EW(f_delta=fdelta * 1.9 + 0.3)
+    o.fit(x, method=method, weights=warg)               # another fixed delta first
+    twin = copy.deepcopy(o)
+    out.append(dict(name="refix", bits=last(o)))
+    out.append(dict(name="deepcopy", bits=last(twin)))  # the same past, on a deep copy
+    o = EW(f_delta=fdelta)
+    o.delta = fdelta * 0.5 + 3.3                        # the attribute is overwritten between construction and fit
+    out.append(dict(name="assign_delta", bits=last(o)))
+    return out
+
+
 def law_again(vc, c, seed):
     """history pass: first ANOTHER instance with a different fixed delta is fitted by least squares to an
     equally long sample, then the fit of the case is repeated; returns the bit patterns of its result"""
@@ -262,7 +294,7 @@ def law_record(vc, rid, c, seed):
     isint = c["cls"] == "integers"
     rec = dict(id=rid, kind="law", wk=wk, fixed=bool(c["fixed"]), n=c["n"], exc="", haszeros=haszeros, isint=isint,
                tiecons=True, variants=[], g=0, ab=0, dq=0, dfix=0, pos=True, em=0, ep=0, hq=0, emdef=True, epdef=True,
-               bits0=[], bitsH=[], bitsA=[], bitsB=[])
+               bits0=[], bitsH=[], bitsA=[], bitsB=[], hist=[])
     with warnings.catch_warnings():
         warnings.simplefilter("ignore")
         try:
@@ -302,6 +334,8 @@ def law_record(vc, rid, c, seed):
                 wz = base.copy()
                 wz[zero] = 1000.0 if wk in ("array", "none") else 5.0
                 variant("zeroweights", x, wz, wz)
+            if fdelta is not None:
+                rec["hist"] = object_histories(vc, x, method, warg, fdelta)
             if isint:       # the same numbers as integers (the weights x, x^2, x^3 must not overflow)
                 for dt in (np.int32, np.int64):
                     variant("intdtype", x.astype(dt), warg, warr)
@@ -470,6 +504,9 @@ def selftest(ctx, law_recs, disc_recs, failing):
     m(free_arr, "DeltaLocalMin", emdef=False, epdef=False)
     m(fix_kw, "CaseOrderIndependent", bitsB=fix_kw["bitsB"][:-1] + [fix_kw["bitsB"][-1] ^ 1])
     m(fix_kw, "CaseOrderIndependent", bits0=fix_kw["bits0"][:-1] + [fix_kw["bits0"][-1] ^ 1])
+    m(fix_kw, "ObjectHistoryIndependent", hist=[dict(h, bits=h["bits"][:-1] + [h["bits"][-1] ^ 1]) if h["name"] == "refix"
+                                                 else h for h in fix_kw["hist"]])
+    m(fix_kw, "ObjectHistoryIndependent", hist=[h for h in fix_kw["hist"] if h["name"] != "deepcopy"])
     m(fix_kw, "EarlierFitDoesNotLeak", bitsH=fix_kw["bitsH"][:-1] + [fix_kw["bitsH"][-1] ^ 1])
     m(dict(id=0, kind="table", method="lsq", wk="none", fixedset=[], outcome="ValueError"), "OutcomeTable")
     m(dict(id=0, kind="table", method="wlsq", wk="cubic", fixedset=["alpha"], outcome="fit-free-delta"), "OutcomeTable")
@@ -513,6 +550,7 @@ def run(ctx):
     ctx.model_check("EwLsq", "MC_EwLsq_mut_zeros.cfg", expect_violation="PositionsAfterRanking", workers=4)
     ctx.model_check("EwLsq", "MC_EwLsq_mut_pos.cfg", expect_violation="PositionsAfterRanking", workers=4)
     ctx.model_check("EwLsq", "MC_EwLsq_mut_sharedpos.cfg", expect_violation="LinearisedForOwnDelta", workers=4)
+    ctx.model_check("EwLsq", "MC_EwLsq_mut_staledelta.cfg", expect_violation="LinearisedForOwnDelta", workers=4)
     # ---- R
     inputs = ctx.generate("EwLsq", ctx.pick("Gen_EwLsq_quick.cfg", "Gen_EwLsq_thorough.cfg"))
     lawcases = ctx.generate("EwLsqCases", ctx.pick("Gen_EwLsqCases_quick.cfg", "Gen_EwLsqCases_thorough.cfg"))
